@@ -8,6 +8,8 @@ Model: `Model/Codec.lean`.  The write tables (JSONWrite<T>Value, <T>.MarshalJSON
 implementation against `normJ` of the model, value by value).
 -/
 import APModel.Theory.Codec
+import APModel.Theory.Deep
+import APModel.Model.DeepEnv
 
 namespace APModel.Codec
 open APModel APModel.Generated
@@ -173,3 +175,43 @@ example : (decodeLevel (jsonR "Place") (encodeLevel (jsonW "Place")
     · cases h
 
 end APModel.Codec
+
+namespace APModel.Deep
+open APModel APModel.Codec APModel.Generated
+
+/-! ### the whole-tree theorem on the deep model (writer and reader on JSON trees, leaf helpers included) -/
+
+/-- every declared field of every struct and sub-record meets write and read rows that fit together in
+the deep sense: an adequate guard, a read row for the written member that reads into the same field with
+a helper whose composition with the write helper is covered by the theorem, and for text properties a
+`<term>Map` reader that no other row shadows -/
+theorem C01_deep_tables :
+    jsonEntries.all (fun e => (schemaOf e.1).all (fun f => coherentField envJson e.1 f.1)) = true := by
+  decide +kernel
+
+/-- C01 on whole trees, for the code's own tables: for EVERY well-formed value tree — any struct, any
+properties, IRIs, embedded objects and links, lists, language values, sub-records, nested to any depth —
+reading what the writer writes gives the documented normal form `normJ x`. -/
+theorem C01_deep (x : Item) (h : wfItem envJson x = true) : roundTrip envJson x = normJ x :=
+  deep_roundtrip envJson x h
+
+/-- … in particular nothing is dropped: what survives the normal form survives the round trip, at
+every depth (stated for any parametrisation of the model) -/
+theorem C01_deep_generic (E : Env) (x : Item) (h : wfItem E x = true) : roundTrip E x = normJ x :=
+  deep_roundtrip E x h
+
+/-! non-vacuity: a Create activity embedding a Note by value, with a language map, recipients and a tag
+that is an object without id and type (depth 2) is well formed, so the theorem applies to it -/
+def sampleNote : Item := .node .object false
+  (.cons "ID" (.str (nm "https://example.com/n/1")) (.cons "Type" (.str (nm "Note"))
+  (.cons "Name" (.nlv [(nm "en", nm "hello"), (nm "fr", nm "bonjour")])
+  (.cons "To" (.items (.cons (.iri (nm "https://example.com/a")) (.cons (.iri (nm "https://example.com/b")) .nil)))
+  (.cons "Tag" (.items (.cons (.node .object true (.cons "Name" (.nlv [(dash, nm "#tag")]) .nil)) .nil)) .nil)))))
+def sampleCreate : Item := .node .activity true
+  (.cons "ID" (.str (nm "https://example.com/c/1")) (.cons "Type" (.str (nm "Create"))
+  (.cons "Actor" (.item (.iri (nm "https://example.com/~u"))) (.cons "Object" (.item sampleNote)
+  (.cons "Published" (.time 1700000000 5 7200) .nil)))))
+theorem sampleCreate_wf : wfItem envJson sampleCreate = true := by decide +kernel
+example : roundTrip envJson sampleCreate = normJ sampleCreate := C01_deep _ sampleCreate_wf
+
+end APModel.Deep
